@@ -85,6 +85,8 @@ RECURSIVE Ancestors(_, _, _)
 Ancestors(N, n, fuel) == IF fuel = 0 \/ N[n].ptr = 0 THEN {}
                          ELSE {N[n].ptr} \cup Ancestors(N, N[n].ptr, fuel - 1)
 Within(N, n, cls)     == \E a \in Ancestors(N, n, Len(N)) : N[a].cls = cls
+\* within(C) for any class or tuple of classes: C is given as the set of concrete node classes that are C or a subclass (isinstance)
+WithinAny(N, n, S)    == \E a \in Ancestors(N, n, Len(N)) : N[a].cls \in S
 HasAncestor(N, n, o)  == o \in Ancestors(N, n, Len(N))
 IsChildOf(N, n, o)    == N[n].ptr = o
 
